@@ -18,7 +18,8 @@ type fspec struct {
 }
 
 var (
-	allT  = []string{"list", "vector", "string"}
+	allT  = []string{"list", "vector", "string", "octets", "bit-vector"}
+	lvs   = []string{"list", "vector", "string"}
 	listT = []string{"list"}
 )
 
@@ -57,7 +58,8 @@ var specs = []fspec{
 	{"replace", "replace", allT, false, false, true, false, false},
 	{"sort", "sort", allT, false, false, false, false, true},
 	{"stable-sort", "sort", allT, false, false, false, false, true},
-	{"merge", "merge", allT, false, false, false, false, true},
+	// no bit-vectors: every order predicate is numeric and slip's numeric functions reject bits
+	{"merge", "merge", []string{"list", "vector", "string", "octets"}, false, false, false, false, true},
 	{"union", "set", listT, false, false, false, true, true},
 	{"nunion", "set", listT, false, false, false, true, true},
 	{"intersection", "set", listT, false, false, false, true, true},
@@ -96,6 +98,29 @@ type knobs struct {
 	test    int
 	maxLen  int
 	minLen  int
+	seq2    []int // element indices of the second sequence (nil = random)
+	alpha   int   // size of the alphabet the enumerated sequences are over (0 = 4)
+}
+
+// unsupported tells whether a function rejects a sequence type outright on the
+// pinned tree (listed findings): such combinations are generated in a small
+// minority only.
+func unsupported(fn, typ string) bool {
+	switch typ {
+	case "bit-vector":
+		switch fn {
+		case "find", "find-if", "position", "position-if", "remove", "remove-if", "delete", "delete-if",
+			"substitute", "substitute-if", "nsubstitute", "nsubstitute-if", "remove-duplicates", "delete-duplicates",
+			"search", "sort", "stable-sort":
+			return true
+		}
+	case "octets":
+		switch fn {
+		case "substitute", "substitute-if", "nsubstitute", "nsubstitute-if", "sort", "stable-sort":
+			return true
+		}
+	}
+	return false
 }
 
 var alphabets = map[string][]string{
@@ -103,9 +128,10 @@ var alphabets = map[string][]string{
 	"sym":  {"a", "b", "c", "d"},
 	"char": {"#\\a", "#\\b", "#\\A", "#\\c"},
 	"symn": {"a", "nil", "b", "c"}, // symbols with nil as one of the four
+	"bit":  {"0", "1", "1", "0"},   // elements of bit-vectors (an integer flavour)
 }
 
-var absent = map[string]string{"int": "7", "sym": "z", "symn": "z", "char": "#\\z"}
+var absent = map[string]string{"int": "7", "bit": "7", "sym": "z", "symn": "z", "char": "#\\z"}
 
 func pickStr(r *rand.Rand, xs []string) string { return xs[r.IntN(len(xs))] }
 
@@ -156,8 +182,13 @@ func (k *knobs) length(r *rand.Rand) int {
 
 func chooseFlavour(r *rand.Rand, typs ...string) string {
 	for _, t := range typs {
-		if t == "string" {
+		switch t {
+		case "string":
 			return "char"
+		case "bit-vector":
+			return "bit"
+		case "octets":
+			return "int"
 		}
 	}
 	switch x := r.IntN(20); {
@@ -203,7 +234,10 @@ func chooseKey(r *rand.Rand, flav string, want bool) (string, string) {
 }
 
 func chooseTest(r *rand.Rand, flav string, want, equivOnly bool) string {
-	if !want {
+	if !want || flav == "bit" {
+		// equal, eql and = signal a type-error for a bit in slip (an equality /
+		// numeric-tower defect, not this property's concern): bits are only
+		// compared by the default test
 		return ""
 	}
 	names := namesFor(tests, func(_ string, t fn2) bool { return domOK(t.dom, flav) && (t.equiv || !equivOnly) })
@@ -338,10 +372,26 @@ func setFromEnd(r *rand.Rand, c *Case, knob int) {
 }
 
 func otherType(r *rand.Rand, flav string) string {
-	if flav == "char" {
-		return pickStr(r, allT)
+	switch flav {
+	case "char":
+		return pickStr(r, lvs)
+	case "int":
+		return pickStr(r, []string{"list", "vector", "octets"})
+	case "bit":
+		return pickStr(r, []string{"list", "vector", "octets", "bit-vector"})
 	}
 	return pickStr(r, []string{"list", "vector"})
+}
+
+// newElement picks a replacement element (substitute, fill) the sequence type can hold.
+func newElement(r *rand.Rand, flav string) string {
+	switch flav {
+	case "cons":
+		return "(9 . 99)"
+	case "bit":
+		return pickStr(r, alphabets["bit"])
+	}
+	return pickStr(r, append([]string{absent[flav]}, alphabets[flav]...))
 }
 
 // dedupe drops elements that match an earlier one under key and test.
@@ -383,6 +433,12 @@ func genCase(r *rand.Rand, sp *fspec, typ string, k knobs) Case {
 		}
 		return randIdx(r, k.length(r))
 	}
+	second := func() []int {
+		if k.seq2 != nil {
+			return k.seq2
+		}
+		return randIdx(r, k.length(r))
+	}
 	switch sp.fam {
 	case "item", "if", "dup":
 		flav := chooseFlavour(r, typ)
@@ -400,12 +456,7 @@ func genCase(r *rand.Rand, sp *fspec, typ string, k knobs) Case {
 			c.Test = chooseTest(r, flav2, yes(r, k.test), true)
 		}
 		if sp.name == "substitute" || sp.name == "substitute-if" || sp.name == "nsubstitute" || sp.name == "nsubstitute-if" {
-			switch flav {
-			case "cons":
-				c.New = "(9 . 99)"
-			default:
-				c.New = pickStr(r, append([]string{absent[flav]}, alphabets[flav]...))
-			}
+			c.New = newElement(r, flav)
 		}
 		if sp.bnd {
 			setBounds(r, len(idx), k.bounds, &c.Start, &c.End, &c.EndNil)
@@ -464,7 +515,7 @@ func genCase(r *rand.Rand, sp *fspec, typ string, k knobs) Case {
 		if c.T2 == "string" {
 			flav = "char"
 		}
-		idx2 := randIdx(r, k.length(r))
+		idx2 := second()
 		var idx1 []int
 		if k.seq != nil {
 			idx1 = k.seq
@@ -505,7 +556,7 @@ func genCase(r *rand.Rand, sp *fspec, typ string, k knobs) Case {
 				idx1[p] = (idx1[p] + 1 + r.IntN(3)) % 4
 			}
 		}
-		if k.seq != nil && r.IntN(2) == 0 {
+		if k.seq != nil && k.seq2 == nil && r.IntN(2) == 0 {
 			// exhaustive block: sequence-2 related to the enumerated one
 			idx2 = append(append(randIdx(r, r.IntN(3)), k.seq...), randIdx(r, r.IntN(3))...)
 		}
@@ -532,6 +583,14 @@ func genCase(r *rand.Rand, sp *fspec, typ string, k knobs) Case {
 		if sp.name == "search" && k.seq == nil && (c.T1 == "string") != (c.T2 == "string") && r.IntN(4) != 0 {
 			c.T2 = c.T1
 		}
+		if sp.name == "search" && (c.T1 == "octets") != (c.T2 == "octets") && r.IntN(8) != 0 {
+			// search between octets and another sequence type (listed finding): minority
+			if c.T1 == "octets" {
+				c.T2 = "octets"
+			} else {
+				c.T2 = c.T1
+			}
+		}
 		if sp.name == "mismatch" {
 			avoidAtLength(r, len(idx1), k.bounds, &c.Start, &c.End)
 			avoidAtLength(r, len(idx2), k.bounds2, &c.Start2, &c.End2)
@@ -554,11 +613,7 @@ func genCase(r *rand.Rand, sp *fspec, typ string, k knobs) Case {
 		flav := chooseFlavour(r, typ)
 		idx := seqIdx()
 		c.S1 = elements(flav, idx, 0)
-		if flav == "cons" {
-			c.Item = "(9 . 99)"
-		} else {
-			c.Item = pickStr(r, append([]string{absent[flav]}, alphabets[flav]...))
-		}
+		c.Item = newElement(r, flav)
 		setBounds(r, len(idx), k.bounds, &c.Start, &c.End, &c.EndNil)
 		avoidAtLength(r, len(idx), k.bounds, &c.Start, &c.End)
 	case "replace":
@@ -568,10 +623,10 @@ func genCase(r *rand.Rand, sp *fspec, typ string, k knobs) Case {
 			flav = "char"
 		}
 		idx := seqIdx()
-		idx2 := randIdx(r, k.length(r))
+		idx2 := second()
 		c.S1 = elements(flav, idx, 0)
 		c.S2 = elements(flav, idx2, 20)
-		if flav != "cons" {
+		if flav != "cons" && flav != "bit" {
 			// make source elements distinguishable from the target's
 			for i := range c.S2 {
 				if r.IntN(2) == 0 {
@@ -597,7 +652,12 @@ func genCase(r *rand.Rand, sp *fspec, typ string, k knobs) Case {
 		if c.Key == "a2b" {
 			c.Key = "lam-id"
 		}
-		names := namesFor(orders, func(_ string, o fn2) bool { return o.dom == flav2 })
+		if flav == "bit" {
+			// no order predicate applies to bits: the documented default comparator
+			c.Key, c.Pred = "", ""
+			break
+		}
+		names := namesFor(orders, func(_ string, o fn2) bool { return domOK(o.dom, flav2) })
 		c.Pred = pickStr(r, names)
 		if k.test == 0 || (k.test < 0 && r.IntN(8) == 0) {
 			c.Pred = "" // documented dialect: default comparator
@@ -623,13 +683,16 @@ func genCase(r *rand.Rand, sp *fspec, typ string, k knobs) Case {
 		if c.Key == "a2b" {
 			c.Key = ""
 		}
-		names := namesFor(orders, func(_ string, o fn2) bool { return o.dom == flav2 })
+		names := namesFor(orders, func(_ string, o fn2) bool { return domOK(o.dom, flav2) })
 		c.Pred = pickStr(r, names)
 		c.S1 = sortedBy(elements(flav, seqIdx(), 0), c.Key, c.Pred)
-		c.S2 = sortedBy(elements(flav, randIdx(r, k.length(r)), 20), c.Key, c.Pred)
-		if flav == "char" {
-			c.RT = pickStr(r, allT)
-		} else {
+		c.S2 = sortedBy(elements(flav, second(), 20), c.Key, c.Pred)
+		switch flav {
+		case "char":
+			c.RT = pickStr(r, lvs)
+		case "int", "bit":
+			c.RT = pickStr(r, []string{"list", "vector", "octets"}) // documented result types: list string vector octets
+		default:
 			c.RT = pickStr(r, []string{"list", "vector"})
 		}
 	case "set":
@@ -647,15 +710,15 @@ func genCase(r *rand.Rand, sp *fspec, typ string, k knobs) Case {
 		asym := base == "set-difference" || base == "subsetp"
 		c.Test = chooseTest(r, flav2, yes(r, k.test), !asym)
 		s1 := elements(flav, seqIdx(), 0)
-		s2 := elements(flav, randIdx(r, k.length(r)), 20)
-		if r.IntN(4) == 0 && flav != "cons" {
+		s2 := elements(flav, second(), 20)
+		if k.seq2 == nil && r.IntN(4) == 0 && flav != "cons" {
 			s2 = append(s2, absent[flav])
 		}
 		if asym {
 			eq := func(a, b val) bool { return a.equal(b) }
 			c.S1 = dedupe(s1, "", eq)
 			c.S2 = s2
-			if base == "subsetp" && r.IntN(2) == 0 && flav != "cons" {
+			if base == "subsetp" && k.seq2 == nil && r.IntN(2) == 0 && flav != "cons" {
 				// make the positive answer common
 				c.S2 = append(append([]string{}, s2...), c.S1...)
 			}
@@ -670,15 +733,15 @@ func genCase(r *rand.Rand, sp *fspec, typ string, k knobs) Case {
 			flav = "int"
 		}
 		c.S1 = elements(flav, seqIdx(), 0)
-		if yes(r, k.key) { // knob reused: two sequences
+		if yes(r, k.key) && flav != "bit" { // knob reused: two sequences
 			c.T2 = otherType(r, flav)
 			if c.T2 == "string" && flav != "char" {
 				c.T2 = "vector"
 			}
-			idx2 := append([]int{}, randIdx(r, k.length(r))...)
+			idx2 := append([]int{}, second()...)
 			// related to sequence 1 so that two-argument predicates hold often
 			for i := range idx2 {
-				if i < len(c.S1) && r.IntN(3) != 0 {
+				if k.seq2 == nil && i < len(c.S1) && r.IntN(3) != 0 {
 					idx2[i] = -1
 				}
 			}
@@ -702,7 +765,7 @@ func genCase(r *rand.Rand, sp *fspec, typ string, k knobs) Case {
 			c.S1 = elements(flav, seqIdx(), 0)
 			if two {
 				c.T2 = "list"
-				c.S2 = elements(flav, randIdx(r, k.length(r)), 20)
+				c.S2 = elements(flav, second(), 20)
 			}
 			return c
 		}
@@ -717,7 +780,7 @@ func genCase(r *rand.Rand, sp *fspec, typ string, k knobs) Case {
 			if sp.name == "map" {
 				c.T2 = otherType(r, flav)
 			}
-			c.S2 = elements(flav, randIdx(r, k.length(r)), 20)
+			c.S2 = elements(flav, second(), 20)
 		}
 		names := namesFor(mapfns, func(_ string, m mapfn) bool { return m.arity == arity && domOK(m.dom, flav) })
 		c.Pred = pickStr(r, names)
@@ -729,6 +792,9 @@ func genCase(r *rand.Rand, sp *fspec, typ string, k knobs) Case {
 			rts := []string{"list", "vector", "list", "vector", "nil"}
 			if out == "char" {
 				rts = append(rts, "string", "string")
+			}
+			if out == "int" && c.Pred != "-" {
+				rts = append(rts, "octets")
 			}
 			c.RT = pickStr(r, rts)
 		}
@@ -792,9 +858,12 @@ func genCase(r *rand.Rand, sp *fspec, typ string, k knobs) Case {
 		}
 	case "concat":
 		flav := chooseFlavour(r, typ)
-		if flav == "char" {
-			c.RT = pickStr(r, allT)
-		} else {
+		switch flav {
+		case "char":
+			c.RT = pickStr(r, lvs)
+		case "int":
+			c.RT = pickStr(r, []string{"list", "vector", "octets"})
+		default:
 			c.RT = pickStr(r, []string{"list", "vector"})
 		}
 		c.S1 = elements(flav, seqIdx(), 0)
@@ -805,9 +874,12 @@ func genCase(r *rand.Rand, sp *fspec, typ string, k knobs) Case {
 		if n == 0 {
 			c.T1, c.S1 = "", nil
 		}
+		if k.seq2 != nil && n < 2 {
+			n = 2
+		}
 		if 2 <= n {
 			c.T2 = otherType(r, flav)
-			c.S2 = elements(flav, randIdx(r, k.length(r)), 20)
+			c.S2 = elements(flav, second(), 20)
 		}
 		if 3 <= n {
 			c.T3 = otherType(r, flav)
